@@ -2,6 +2,11 @@
 
 package dhcpv6
 
+import (
+	"github.com/insomniacslk/dhcp/dhcpv4"
+	"github.com/insomniacslk/dhcp/rfc1035label"
+)
+
 // Contracts for the deductive verification in /verif (build tag "verif"). This file adds declarations only.
 
 // GetInnerMessage walks the relay chain and modifies nothing (the default for pointer-receiver methods would allow
@@ -13,16 +18,544 @@ package dhcpv6
 // With vendParseOption the parsed options keep references into the list's bytes (by design: OptVendorOpts passes a
 // copy), so that variant retains data; with ParseOption and parseNTPSuboption every parser copies what it keeps.
 
+//@ define optPos6(buf, data) = off(buf.Buffer.data) - off(data)
+
 //@ contract (*Options).FromBytesWithParser[vendParseOption]
 //@   retains data
+//@   let a0 = string(data)
 //@   modifies o, (*o)[len(*o):cap(*o)]
+//@   ensures[accept] (err == nil) == specOpts6OK(a0, 0, 1)
+//@   loop 0 invariant[pos] ref(buf.Buffer.data) == ref(data) && optPos6(buf, data) >= 0 && optPos6(buf, data) <= len(data) && len(buf.Buffer.data) == len(data) - optPos6(buf, data)
+//@   loop 0 invariant[input] string(data) == a0 && ref(o) != ref(buf) && ref(o) != ref(buf.Buffer) && ref(*o) != ref(buf) && ref(*o) != ref(buf.Buffer)
+//@   loop 0 invariant[list] (fresh(*o) || (ref(*o) == ref(old(*o)) && off(*o) == off(old(*o)) && cap(*o) == cap(old(*o)) && len(*o) >= len(old(*o)))) && (*o == nil || allocated(*o)) && len(*o) <= cap(*o)
+//@   loop 0 invariant[work-ok] buf.err == nil ==> specOpts6OK(a0, 0, 1) == specOpts6OK(a0, optPos6(buf, data), 1)
+//@   loop 0 invariant[sticky] buf.err != nil ==> !specOpts6OK(a0, 0, 1)
 
 //@ contract (*Options).FromBytesWithParser[ParseOption]
+//@   let a0 = string(data)
 //@   modifies o, (*o)[len(*o):cap(*o)]
+//@   ensures[accept] (err == nil) == specOpts6OK(a0, 0, 0)
+//@   loop 0 invariant[pos] ref(buf.Buffer.data) == ref(data) && optPos6(buf, data) >= 0 && optPos6(buf, data) <= len(data) && len(buf.Buffer.data) == len(data) - optPos6(buf, data)
+//@   loop 0 invariant[input] string(data) == a0 && ref(o) != ref(buf) && ref(o) != ref(buf.Buffer) && ref(*o) != ref(buf) && ref(*o) != ref(buf.Buffer)
+//@   loop 0 invariant[list] (fresh(*o) || (ref(*o) == ref(old(*o)) && off(*o) == off(old(*o)) && cap(*o) == cap(old(*o)) && len(*o) >= len(old(*o)))) && (*o == nil || allocated(*o)) && len(*o) <= cap(*o)
+//@   loop 0 invariant[work-ok] buf.err == nil ==> specOpts6OK(a0, 0, 0) == specOpts6OK(a0, optPos6(buf, data), 0)
+//@   loop 0 invariant[sticky] buf.err != nil ==> !specOpts6OK(a0, 0, 0)
 
 //@ contract (*Options).FromBytesWithParser[parseNTPSuboption]
+//@   let a0 = string(data)
 //@   modifies o, (*o)[len(*o):cap(*o)]
+//@   ensures[accept] (err == nil) == specOpts6OK(a0, 0, 2)
+//@   loop 0 invariant[pos] ref(buf.Buffer.data) == ref(data) && optPos6(buf, data) >= 0 && optPos6(buf, data) <= len(data) && len(buf.Buffer.data) == len(data) - optPos6(buf, data)
+//@   loop 0 invariant[input] string(data) == a0 && ref(o) != ref(buf) && ref(o) != ref(buf.Buffer) && ref(*o) != ref(buf) && ref(*o) != ref(buf.Buffer)
+//@   loop 0 invariant[list] (fresh(*o) || (ref(*o) == ref(old(*o)) && off(*o) == off(old(*o)) && cap(*o) == cap(old(*o)) && len(*o) >= len(old(*o)))) && (*o == nil || allocated(*o)) && len(*o) <= cap(*o)
+//@   loop 0 invariant[work-ok] buf.err == nil ==> specOpts6OK(a0, 0, 2) == specOpts6OK(a0, optPos6(buf, data), 2)
+//@   loop 0 invariant[sticky] buf.err != nil ==> !specOpts6OK(a0, 0, 2)
 
 //@ contract vendParseOption
 //@   retains data
 //@   ensures err == nil && result0 != nil
+//@   ensures[accept] (err == nil) == specOpt6OK(int(code), string(data), 1)
+
+// ---------- C05: acceptance of DHCPv6 messages and options (independent reading of RFC 8415 and the per-option RFCs) ----------
+
+func specU16At(a string, p int) int {
+	if p < 0 || p+2 > len(a) {
+		return 0
+	}
+	return int(a[p])*256 + int(a[p+1])
+}
+
+func specU32At(a string, p int) int {
+	if p < 0 || p+4 > len(a) {
+		return 0
+	}
+	return int(a[p])*16777216 + int(a[p+1])*65536 + int(a[p+2])*256 + int(a[p+3])
+}
+
+// specTiles16: a run of (2-byte length, that many bytes) items tiles a from p exactly (user class, vendor class, boot file parameters)
+//@ contract specTiles16
+//@   decreases len(a) - p
+func specTiles16(a string, p int) bool {
+	if p < 0 || p > len(a) {
+		return false
+	}
+	if p == len(a) {
+		return true
+	}
+	if p+2 > len(a) || p+2+specU16At(a, p) > len(a) {
+		return false
+	}
+	return specTiles16(a, p+2+specU16At(a, p))
+}
+
+// specDUIDOK: RFC 8415 section 11 -- 2-byte type, then the layout of that type
+func specDUIDOK(v string) bool {
+	if len(v) < 2 {
+		return false
+	}
+	if specU16At(v, 0) == 1 {
+		return len(v) >= 8
+	}
+	if specU16At(v, 0) == 3 {
+		return len(v) >= 4
+	}
+	if specU16At(v, 0) == 2 {
+		return len(v) >= 6
+	}
+	if specU16At(v, 0) == 4 {
+		return len(v) == 18
+	}
+	return true
+}
+
+// specOpts6OK: code/length/value triples tile a from p exactly and every option satisfies its own layout.
+// kind 0: DHCPv6 options (RFC 8415 section 21 and the per-option RFCs); 1: vendor sub-options (opaque); 2: NTP sub-options (RFC 5908)
+//@ contract specOpts6OK
+//@   decreases len(a) - p, 1
+func specOpts6OK(a string, p int, kind int) bool {
+	if p < 0 || p > len(a) {
+		return false
+	}
+	if p == len(a) {
+		return true
+	}
+	if p+4 > len(a) || p+4+specU16At(a, p+2) > len(a) {
+		return false
+	}
+	if !specOpt6OK(specU16At(a, p), a[p+4:p+4+specU16At(a, p+2)], kind) {
+		return false
+	}
+	return specOpts6OK(a, p+4+specU16At(a, p+2), kind)
+}
+
+// specMsg6OK: a DHCPv6 message: 1-byte type; relay messages (12, 13) have a 34-byte header, all others a 4-byte one; then options
+//@ contract specMsg6OK
+//@   decreases len(a), 2
+func specMsg6OK(a string) bool {
+	if len(a) < 1 {
+		return false
+	}
+	if a[0] == 12 || a[0] == 13 {
+		return len(a) >= 34 && specOpts6OK(a[34:], 0, 0)
+	}
+	return len(a) >= 4 && specOpts6OK(a[4:], 0, 0)
+}
+
+//@ contract specOpt6OK
+//@   decreases len(v), 3
+func specOpt6OK(code int, v string, kind int) bool {
+	if kind == 1 {
+		return true
+	}
+	if kind == 2 {
+		if code == 1 || code == 2 {
+			return len(v) == 16
+		}
+		if code == 3 {
+			return rfc1035label.SpecLabelsAccept(v, 0, false, 0)
+		}
+		return true
+	}
+	if code == 1 || code == 2 {
+		return specDUIDOK(v)
+	}
+	if code == 3 || code == 25 {
+		return len(v) >= 12 && specOpts6OK(v[12:], 0, 0)
+	}
+	if code == 4 {
+		return len(v) >= 4 && specOpts6OK(v[4:], 0, 0)
+	}
+	if code == 5 {
+		return len(v) >= 24 && specOpts6OK(v[24:], 0, 0)
+	}
+	if code == 26 {
+		return len(v) >= 25 && specOpts6OK(v[25:], 0, 0)
+	}
+	if code == 6 {
+		return len(v)%2 == 0
+	}
+	if code == 8 || code == 135 {
+		return len(v) == 2
+	}
+	if code == 9 {
+		return specMsg6OK(v)
+	}
+	if code == 13 || code == 79 {
+		return len(v) >= 2
+	}
+	if code == 15 {
+		return len(v) > 0 && specTiles16(v, 0)
+	}
+	if code == 16 {
+		return len(v) >= 6 && specTiles16(v, 4)
+	}
+	if code == 17 {
+		return len(v) >= 4 && specOpts6OK(v[4:], 0, 1)
+	}
+	if code == 23 || code == 88 {
+		return len(v)%16 == 0
+	}
+	if code == 24 {
+		return rfc1035label.SpecLabelsAccept(v, 0, false, 0)
+	}
+	if code == 32 {
+		return len(v) == 4
+	}
+	if code == 37 {
+		return len(v) >= 4
+	}
+	if code == 39 {
+		return len(v) >= 1 && rfc1035label.SpecLabelsAccept(v[1:], 0, false, 0)
+	}
+	if code == 56 {
+		return specOpts6OK(v, 0, 2)
+	}
+	if code == 60 {
+		return specTiles16(v, 0)
+	}
+	if code == 61 {
+		return len(v) > 0 && len(v)%2 == 0
+	}
+	if code == 62 {
+		return len(v) == 3
+	}
+	if code == 87 {
+		return dhcpv4.SpecAcceptV4(v)
+	}
+	if code == 97 {
+		return specOpts6OK(v, 0, 0)
+	}
+	if code == 98 {
+		return len(v) == 24
+	}
+	if code == 99 {
+		return len(v) == 4
+	}
+	return true
+}
+
+// ---------- C05: per-option decoders: exact acceptance and the typed fields read from the wire ----------
+
+//@ contract (*Opt4RDMapRule).FromBytes
+//@   let a0 = string(data)
+//@   modifies op
+//@   ensures[accept] (err == nil) == (len(data) == 24)
+//@   ensures[eabits] err == nil ==> int(op.EABitsLength) == int(a0[2])
+//@   ensures[prefix4] err == nil ==> string(op.Prefix4.IP) == a0[4:8]
+//@   ensures[prefix6] err == nil ==> string(op.Prefix6.IP) == a0[8:24]
+
+//@ contract (*Opt4RDNonMapRule).FromBytes
+//@   let a0 = string(data)
+//@   modifies op
+//@   ensures[accept] (err == nil) == (len(data) == 4)
+//@   ensures[pmtu] err == nil ==> int(op.DomainPMTU) == specU16At(a0, 2)
+
+//@ contract (*optBootFileURL).FromBytes
+//@   let a0 = string(data)
+//@   modifies op
+//@   ensures[accept] (err == nil) == (true)
+//@   ensures[url] err == nil ==> op.url == a0
+
+//@ contract (*optClientLinkLayerAddress).FromBytes
+//@   let a0 = string(data)
+//@   modifies op
+//@   ensures[accept] (err == nil) == (len(data) >= 2)
+//@   ensures[type] err == nil ==> int(op.LinkLayerType) == specU16At(a0, 0)
+//@   ensures[addr] err == nil ==> string(op.LinkLayerAddress) == a0[2:] && fresh(op.LinkLayerAddress)
+
+//@ contract (*optElapsedTime).FromBytes
+//@   let a0 = string(data)
+//@   modifies op
+//@   ensures[accept] (err == nil) == (len(data) == 2)
+//@   ensures[value] err == nil ==> int(op.ElapsedTime) == specU16At(a0, 0)*10000000
+
+//@ contract (*optInformationRefreshTime).FromBytes
+//@   let a0 = string(data)
+//@   modifies op
+//@   ensures[accept] (err == nil) == (len(data) == 4)
+//@   ensures[value] err == nil ==> int(op.InformationRefreshtime) == specU32At(a0, 0)*1000000000
+
+//@ contract (*optInterfaceID).FromBytes
+//@   let a0 = string(data)
+//@   modifies op
+//@   ensures[accept] (err == nil) == (true)
+//@   ensures[id] err == nil ==> string(op.ID) == a0 && fresh(op.ID)
+
+//@ contract (*OptNetworkInterfaceID).FromBytes
+//@   let a0 = string(data)
+//@   modifies op
+//@   ensures[accept] (err == nil) == (len(data) == 3)
+//@   ensures[fields] err == nil ==> int(op.Typ) == int(a0[0]) && int(op.Major) == int(a0[1]) && int(op.Minor) == int(a0[2])
+
+//@ contract (*optRelayPort).FromBytes
+//@   let a0 = string(data)
+//@   modifies op
+//@   ensures[accept] (err == nil) == (len(data) == 2)
+//@   ensures[port] err == nil ==> int(op.DownstreamSourcePort) == specU16At(a0, 0)
+
+//@ contract (*OptRemoteID).FromBytes
+//@   let a0 = string(data)
+//@   modifies op
+//@   ensures[accept] (err == nil) == (len(data) >= 4)
+//@   ensures[enterprise] err == nil ==> int(op.EnterpriseNumber) == specU32At(a0, 0)
+//@   ensures[id] err == nil ==> string(op.RemoteID) == a0[4:] && fresh(op.RemoteID)
+
+//@ contract (*OptStatusCode).FromBytes
+//@   let a0 = string(data)
+//@   modifies op
+//@   ensures[accept] (err == nil) == (len(data) >= 2)
+//@   ensures[code] err == nil ==> int(op.StatusCode) == specU16At(a0, 0)
+//@   ensures[message] err == nil ==> op.StatusMessage == a0[2:]
+
+//@ contract (*OptionGeneric).FromBytes
+//@   let a0 = string(p)
+//@   modifies og
+//@   ensures[accept] (err == nil) == (true)
+//@   ensures[data] err == nil ==> string(og.OptionData) == a0 && fresh(og.OptionData)
+
+//@ contract (*NTPSuboptionSrvAddr).FromBytes
+//@   let a0 = string(p)
+//@   modifies n
+//@   ensures[accept] (err == nil) == (len(p) == 16)
+//@   ensures[addr] err == nil ==> string(*n) == a0 && fresh(*n)
+
+//@ contract (*NTPSuboptionMCAddr).FromBytes
+//@   let a0 = string(p)
+//@   modifies n
+//@   ensures[accept] (err == nil) == (len(p) == 16)
+//@   ensures[addr] err == nil ==> string(*n) == a0 && fresh(*n)
+
+//@ contract (*DUIDLLT).FromBytes
+//@   let a0 = string(p)
+//@   modifies d
+//@   ensures[accept] (err == nil) == (len(p) >= 6)
+//@   ensures[fields] err == nil ==> int(d.HWType) == specU16At(a0, 0) && int(d.Time) == specU32At(a0, 2)
+//@   ensures[addr] err == nil ==> string(d.LinkLayerAddr) == a0[6:] && fresh(d.LinkLayerAddr)
+
+//@ contract (*DUIDLL).FromBytes
+//@   let a0 = string(p)
+//@   modifies d
+//@   ensures[accept] (err == nil) == (len(p) >= 2)
+//@   ensures[fields] err == nil ==> int(d.HWType) == specU16At(a0, 0)
+//@   ensures[addr] err == nil ==> string(d.LinkLayerAddr) == a0[2:] && fresh(d.LinkLayerAddr)
+
+//@ contract (*DUIDEN).FromBytes
+//@   let a0 = string(p)
+//@   modifies d
+//@   ensures[accept] (err == nil) == (len(p) >= 4)
+//@   ensures[fields] err == nil ==> int(d.EnterpriseNumber) == specU32At(a0, 0)
+//@   ensures[id] err == nil ==> string(d.EnterpriseIdentifier) == a0[4:] && fresh(d.EnterpriseIdentifier)
+
+//@ contract (*DUIDUUID).FromBytes
+//@   let a0 = string(p)
+//@   modifies d
+//@   ensures[accept] (err == nil) == (len(p) == 16)
+//@   ensures[uuid] err == nil ==> string(d.UUID[:]) == a0
+
+//@ contract (*DUIDOpaque).FromBytes
+//@   let a0 = string(p)
+//@   modifies d
+//@   ensures[accept] (err == nil) == (true)
+//@   ensures[data] err == nil ==> string(d.Data) == a0 && fresh(d.Data)
+
+//@ contract DUIDFromBytes
+//@   let a0 = string(data)
+//@   ensures[accept] (err == nil) == specDUIDOK(a0)
+//@   ensures[result] err == nil ==> result0 != nil
+
+//@ contract (*optClientID).FromBytes
+//@   let a0 = string(data)
+//@   modifies op
+//@   ensures[accept] (err == nil) == (specDUIDOK(a0))
+//@   ensures[duid] err == nil ==> op.DUID != nil
+
+//@ contract (*optServerID).FromBytes
+//@   let a0 = string(data)
+//@   modifies op
+//@   ensures[accept] (err == nil) == (specDUIDOK(a0))
+//@   ensures[duid] err == nil ==> op.DUID != nil
+
+//@ contract (*optDomainSearchList).FromBytes
+//@   let a0 = string(data)
+//@   modifies op
+//@   ensures[accept] (err == nil) == (rfc1035label.SpecLabelsAccept(a0, 0, false, 0))
+//@   ensures[names] err == nil ==> op.DomainSearchList != nil && (rfc1035label.specLabelsStatus(a0, 0, false, 0) == 0 ==> seq(op.DomainSearchList.Labels) == rfc1035label.specLabels(a0, 0, "", false, 0, []string{}))
+
+//@ contract (*NTPSuboptionSrvFQDN).FromBytes
+//@   let a0 = string(p)
+//@   modifies n
+//@   ensures[accept] (err == nil) == (rfc1035label.SpecLabelsAccept(a0, 0, false, 0))
+
+//@ contract (*OptFQDN).FromBytes
+//@   let a0 = string(data)
+//@   modifies op
+//@   ensures[accept] (err == nil) == (len(data) >= 1 && rfc1035label.SpecLabelsAccept(a0[1:], 0, false, 0))
+//@   ensures[flags] err == nil ==> int(op.Flags) == int(a0[0]) && op.DomainName != nil
+
+//@ contract (*OptDHCPv4Msg).FromBytes
+//@   let a0 = string(data)
+//@   modifies op
+//@   ensures[accept] (err == nil) == (dhcpv4.SpecAcceptV4(a0))
+//@   ensures[msg] err == nil ==> op.Msg != nil
+
+//@ contract (*optClientArchType).FromBytes
+//@   let a0 = string(p)
+//@   modifies op
+//@   ensures[accept] (err == nil) == (len(p) > 0 && len(p)%2 == 0)
+//@   ensures[count] err == nil ==> len(op.Archs) == len(p)/2
+
+//@ contract (*OptIAAddress).FromBytes
+//@   let a0 = string(data)
+//@   modifies op, op.Options.Options[len(op.Options.Options):cap(op.Options.Options)]
+//@   ensures[accept] (err == nil) == (len(data) >= 24 && specOpts6OK(a0[24:], 0, 0))
+//@   ensures[addr] err == nil ==> string(op.IPv6Addr) == a0[0:16] && fresh(op.IPv6Addr)
+//@   ensures[lifetimes] err == nil ==> int(op.PreferredLifetime) == specU32At(a0, 16)*1000000000 && int(op.ValidLifetime) == specU32At(a0, 20)*1000000000
+
+//@ contract (*OptIANA).FromBytes
+//@   let a0 = string(data)
+//@   requires ref(data) != ref(op)
+//@   modifies op, op.Options.Options[len(op.Options.Options):cap(op.Options.Options)]
+//@   ensures[accept] (err == nil) == (len(data) >= 12 && specOpts6OK(a0[12:], 0, 0))
+//@   ensures[iaid] err == nil ==> string(op.IaId[:]) == a0[0:4]
+//@   ensures[timers] err == nil ==> int(op.T1) == specU32At(a0, 4)*1000000000 && int(op.T2) == specU32At(a0, 8)*1000000000
+
+//@ contract (*OptIAPD).FromBytes
+//@   let a0 = string(data)
+//@   requires ref(data) != ref(op)
+//@   modifies op, op.Options.Options[len(op.Options.Options):cap(op.Options.Options)]
+//@   ensures[accept] (err == nil) == (len(data) >= 12 && specOpts6OK(a0[12:], 0, 0))
+//@   ensures[iaid] err == nil ==> string(op.IaId[:]) == a0[0:4]
+//@   ensures[timers] err == nil ==> int(op.T1) == specU32At(a0, 4)*1000000000 && int(op.T2) == specU32At(a0, 8)*1000000000
+
+//@ contract (*OptIATA).FromBytes
+//@   let a0 = string(data)
+//@   requires ref(data) != ref(op)
+//@   modifies op, op.Options.Options[len(op.Options.Options):cap(op.Options.Options)]
+//@   ensures[accept] (err == nil) == (len(data) >= 4 && specOpts6OK(a0[4:], 0, 0))
+//@   ensures[iaid] err == nil ==> string(op.IaId[:]) == a0[0:4]
+
+//@ contract (*OptIAPrefix).FromBytes
+//@   let a0 = string(data)
+//@   modifies op, op.Options.Options[len(op.Options.Options):cap(op.Options.Options)]
+//@   ensures[accept] (err == nil) == (len(data) >= 25 && specOpts6OK(a0[25:], 0, 0))
+//@   ensures[lifetimes] err == nil ==> int(op.PreferredLifetime) == specU32At(a0, 0)*1000000000 && int(op.ValidLifetime) == specU32At(a0, 4)*1000000000
+//@   ensures[prefix] err == nil ==> (a0[8] == 0) == (op.Prefix == nil) && (op.Prefix != nil ==> string(op.Prefix.IP) == a0[9:25])
+
+//@ contract (*Opt4RD).FromBytes
+//@   let a0 = string(data)
+//@   modifies op, op.FourRDOptions.Options[len(op.FourRDOptions.Options):cap(op.FourRDOptions.Options)]
+//@   ensures[accept] (err == nil) == (specOpts6OK(a0, 0, 0))
+
+//@ contract (*OptNTPServer).FromBytes
+//@   let a0 = string(data)
+//@   modifies op, op.Suboptions[len(op.Suboptions):cap(op.Suboptions)]
+//@   ensures[accept] (err == nil) == (specOpts6OK(a0, 0, 2))
+
+//@ contract (*OptVendorOpts).FromBytes
+//@   let a0 = string(data)
+//@   modifies op, op.VendorOpts[len(op.VendorOpts):cap(op.VendorOpts)]
+//@   ensures[accept] (err == nil) == (len(data) >= 4 && specOpts6OK(a0[4:], 0, 1))
+//@   ensures[enterprise] err == nil ==> int(op.EnterpriseNumber) == specU32At(a0, 0)
+
+//@ contract (*optRelayMsg).FromBytes
+//@   let a0 = string(data)
+//@   modifies op
+//@   ensures[accept] (err == nil) == (specMsg6OK(a0))
+//@   ensures[msg] err == nil ==> op.Msg != nil
+
+// option lists (verified once per parser; kind of the tiling predicate: 0 ParseOption, 1 vendParseOption, 2 parseNTPSuboption)
+//@ contract (*Options).FromBytes
+//@   let a0 = string(data)
+//@   modifies o, (*o)[len(*o):cap(*o)]
+//@   ensures[accept] (err == nil) == specOpts6OK(a0, 0, 0)
+
+//@ contract ParseOption
+//@   let a0 = string(optData)
+//@   ensures[accept] (err == nil) == specOpt6OK(int(code), a0, 0)
+//@   ensures[result] result0 != nil
+
+//@ contract parseNTPSuboption
+//@   let a0 = string(data)
+//@   ensures[accept] (err == nil) == specOpt6OK(int(code), a0, 2)
+//@   ensures[result] result0 != nil
+
+//@ contract MessageFromBytes
+//@   let a0 = string(data)
+//@   ensures[accept] (err == nil) == (len(data) >= 4 && a0[0] != 12 && a0[0] != 13 && specOpts6OK(a0[4:], 0, 0))
+//@   ensures[result] (err == nil) == (result0 != nil)
+//@   ensures[header] err == nil ==> int(result0.MessageType) == int(a0[0]) && string(result0.TransactionID[:]) == a0[1:4]
+
+//@ contract RelayMessageFromBytes
+//@   let a0 = string(data)
+//@   ensures[accept] (err == nil) == (len(data) >= 34 && (a0[0] == 12 || a0[0] == 13) && specOpts6OK(a0[34:], 0, 0))
+//@   ensures[result] (err == nil) == (result0 != nil)
+//@   ensures[header] err == nil ==> int(result0.MessageType) == int(a0[0]) && int(result0.HopCount) == int(a0[1]) && string(result0.LinkAddr) == a0[2:18] && string(result0.PeerAddr) == a0[18:34] && len(result0.LinkAddr) == 16 && len(result0.PeerAddr) == 16
+
+//@ contract FromBytes
+//@   let a0 = string(data)
+//@   ensures[accept] (err == nil) == specMsg6OK(a0)
+//@   ensures[result] err == nil ==> result0 != nil
+//@   ensures[dispatch] err == nil ==> (typeIs(result0, *RelayMessage) == (a0[0] == 12 || a0[0] == 13)) && (typeIs(result0, *Message) == !(a0[0] == 12 || a0[0] == 13))
+
+// list-valued options: (length, value)* or fixed-size items; the sticky lexer error makes a short item reject the option
+//@ contract (*OptionCodes).Add
+//@   modifies o, (*o)[len(*o):cap(*o)]
+//@   ensures (fresh(*o) || (ref(*o) == ref(old(*o)) && off(*o) == off(old(*o)) && cap(*o) == cap(old(*o)) && len(*o) >= len(old(*o)))) && (*o == nil || allocated(*o)) && len(*o) <= cap(*o)
+
+//@ contract (*OptionCodes).FromBytes
+//@   modifies o, (*o)[len(*o):cap(*o)]
+//@   ensures[accept] (err == nil) == (len(data)%2 == 0)
+//@   loop 0 invariant[pos] ref(buf.Buffer.data) == ref(data) && optPos6(buf, data) >= 0 && optPos6(buf, data) <= len(data) && len(buf.Buffer.data) == len(data) - optPos6(buf, data) && buf.err == nil && optPos6(buf, data)%2 == 0
+//@   loop 0 invariant[input] ref(o) != ref(buf) && ref(o) != ref(buf.Buffer) && ref(*o) != ref(buf) && ref(*o) != ref(buf.Buffer)
+//@   loop 0 invariant[list] (fresh(*o) || (ref(*o) == ref(old(*o)) && off(*o) == off(old(*o)) && cap(*o) == cap(old(*o)) && len(*o) >= len(old(*o)))) && (*o == nil || allocated(*o)) && len(*o) <= cap(*o)
+
+//@ contract (*OptUserClass).FromBytes
+//@   let a0 = string(data)
+//@   requires ref(data) != ref(op)
+//@   modifies op, op.UserClasses[len(op.UserClasses):cap(op.UserClasses)]
+//@   ensures[accept] (err == nil) == (len(data) > 0 && specTiles16(a0, 0))
+//@   loop 0 invariant[pos] ref(buf.Buffer.data) == ref(data) && optPos6(buf, data) >= 0 && optPos6(buf, data) <= len(data) && len(buf.Buffer.data) == len(data) - optPos6(buf, data)
+//@   loop 0 invariant[input] string(data) == a0 && ref(op) != ref(buf) && ref(op) != ref(buf.Buffer) && ref(op.UserClasses) != ref(buf) && ref(op.UserClasses) != ref(buf.Buffer)
+//@   loop 0 invariant[list] (fresh(op.UserClasses) || (ref(op.UserClasses) == ref(old(op.UserClasses)) && off(op.UserClasses) == off(old(op.UserClasses)) && cap(op.UserClasses) == cap(old(op.UserClasses)) && len(op.UserClasses) >= len(old(op.UserClasses)))) && (op.UserClasses == nil || allocated(op.UserClasses)) && len(op.UserClasses) <= cap(op.UserClasses)
+//@   loop 0 invariant[work-ok] buf.err == nil ==> specTiles16(a0, 0) == specTiles16(a0, optPos6(buf, data))
+//@   loop 0 invariant[sticky] buf.err != nil ==> !specTiles16(a0, 0)
+
+//@ contract (*optBootFileParam).FromBytes
+//@   let a0 = string(data)
+//@   requires ref(data) != ref(op)
+//@   modifies op, op.params[len(op.params):cap(op.params)]
+//@   ensures[accept] (err == nil) == specTiles16(a0, 0)
+//@   loop 0 invariant[pos] ref(buf.Buffer.data) == ref(data) && optPos6(buf, data) >= 0 && optPos6(buf, data) <= len(data) && len(buf.Buffer.data) == len(data) - optPos6(buf, data)
+//@   loop 0 invariant[input] string(data) == a0 && ref(op) != ref(buf) && ref(op) != ref(buf.Buffer) && ref(op.params) != ref(buf) && ref(op.params) != ref(buf.Buffer)
+//@   loop 0 invariant[list] (fresh(op.params) || (ref(op.params) == ref(old(op.params)) && off(op.params) == off(old(op.params)) && cap(op.params) == cap(old(op.params)) && len(op.params) >= len(old(op.params)))) && (op.params == nil || allocated(op.params)) && len(op.params) <= cap(op.params)
+//@   loop 0 invariant[work-ok] buf.err == nil ==> specTiles16(a0, 0) == specTiles16(a0, optPos6(buf, data))
+//@   loop 0 invariant[sticky] buf.err != nil ==> !specTiles16(a0, 0)
+
+//@ contract (*OptVendorClass).FromBytes
+//@   let a0 = string(data)
+//@   requires ref(data) != ref(op)
+//@   modifies op
+//@   ensures[accept] (err == nil) == (len(data) >= 6 && specTiles16(a0, 4))
+//@   ensures[enterprise] err == nil ==> int(op.EnterpriseNumber) == specU32At(a0, 0)
+//@   loop 0 invariant[pos] ref(buf.Buffer.data) == ref(data) && optPos6(buf, data) >= 0 && optPos6(buf, data) <= len(data) && len(buf.Buffer.data) == len(data) - optPos6(buf, data)
+//@   loop 0 invariant[input] string(data) == a0 && ref(op) != ref(buf) && ref(op) != ref(buf.Buffer) && ref(op.Data) != ref(buf) && ref(op.Data) != ref(buf.Buffer)
+//@   loop 0 invariant[list] fresh(op.Data) && (op.Data == nil || allocated(op.Data)) && len(op.Data) <= cap(op.Data)
+//@   loop 0 invariant[work-ok] buf.err == nil ==> optPos6(buf, data) >= 4 && (len(op.Data) == 0) == (optPos6(buf, data) == 4) && specTiles16(a0, 4) == specTiles16(a0, optPos6(buf, data))
+//@   loop 0 invariant[sticky] buf.err != nil ==> !(len(data) >= 6 && specTiles16(a0, 4))
+//@   loop 0 invariant[enterprise] buf.err == nil ==> int(op.EnterpriseNumber) == specU32At(a0, 0)
+
+//@ contract (*optDNS).FromBytes
+//@   requires ref(data) != ref(op)
+//@   modifies op, op.NameServers[len(op.NameServers):cap(op.NameServers)]
+//@   ensures[accept] (err == nil) == (len(data)%16 == 0)
+//@   loop 0 invariant[pos] ref(buf.Buffer.data) == ref(data) && optPos6(buf, data) >= 0 && optPos6(buf, data) <= len(data) && len(buf.Buffer.data) == len(data) - optPos6(buf, data) && buf.err == nil && optPos6(buf, data)%16 == 0
+//@   loop 0 invariant[input] ref(op) != ref(buf) && ref(op) != ref(buf.Buffer) && ref(op.NameServers) != ref(buf) && ref(op.NameServers) != ref(buf.Buffer)
+//@   loop 0 invariant[list] (fresh(op.NameServers) || (ref(op.NameServers) == ref(old(op.NameServers)) && off(op.NameServers) == off(old(op.NameServers)) && cap(op.NameServers) == cap(old(op.NameServers)) && len(op.NameServers) >= len(old(op.NameServers)))) && (op.NameServers == nil || allocated(op.NameServers)) && len(op.NameServers) <= cap(op.NameServers)
+
+//@ contract (*OptDHCP4oDHCP6Server).FromBytes
+//@   requires ref(data) != ref(op)
+//@   modifies op, op.DHCP4oDHCP6Servers[len(op.DHCP4oDHCP6Servers):cap(op.DHCP4oDHCP6Servers)]
+//@   ensures[accept] (err == nil) == (len(data)%16 == 0)
+//@   loop 0 invariant[pos] ref(buf.Buffer.data) == ref(data) && optPos6(buf, data) >= 0 && optPos6(buf, data) <= len(data) && len(buf.Buffer.data) == len(data) - optPos6(buf, data) && buf.err == nil && optPos6(buf, data)%16 == 0
+//@   loop 0 invariant[input] ref(op) != ref(buf) && ref(op) != ref(buf.Buffer) && ref(op.DHCP4oDHCP6Servers) != ref(buf) && ref(op.DHCP4oDHCP6Servers) != ref(buf.Buffer)
+//@   loop 0 invariant[list] (fresh(op.DHCP4oDHCP6Servers) || (ref(op.DHCP4oDHCP6Servers) == ref(old(op.DHCP4oDHCP6Servers)) && off(op.DHCP4oDHCP6Servers) == off(old(op.DHCP4oDHCP6Servers)) && cap(op.DHCP4oDHCP6Servers) == cap(old(op.DHCP4oDHCP6Servers)) && len(op.DHCP4oDHCP6Servers) >= len(old(op.DHCP4oDHCP6Servers)))) && (op.DHCP4oDHCP6Servers == nil || allocated(op.DHCP4oDHCP6Servers)) && len(op.DHCP4oDHCP6Servers) <= cap(op.DHCP4oDHCP6Servers)
